@@ -696,6 +696,52 @@ def r11(F, R):
     R.floor("C13-R11", 2)
 
 
+def r12(F, R):
+    R.rule("C13-R12", "no way to stop the sampler that forgets a failed chain: the chain workers report their failure on the `results` channel of the Sampler; "
+                      "every method that consumes the Sampler and hands back the trace (abort, and wait_timeout through it) reads what is left on that channel "
+                      "and carries an error it finds into its result - a method that joins the controller and returns only the controller's result reports "
+                      "success for a run whose chains all failed")
+    ad = None
+    for p_, a in F.adts.items():
+        if p_ == "sampler::Sampler":
+            ad = a
+    if ad is None:
+        R.missing("C13-R12", "sampler::Sampler")
+        return
+    res_fields = [f["name"] for f in ad["variants"][0]["fields"] if "Receiver<std::result::Result<()" in f["ty"] or ("Receiver<" in f["ty"] and "anyhow::Error" in f["ty"] and "SamplerResponse" not in f["ty"])]
+    if len(res_fields) != 1:
+        R.missing("C13-R12", "the results receiver field of Sampler (found %s)" % res_fields)
+        return
+    rf = res_fields[0]
+    n = 0
+    for b in F.inherent_methods("sampler::Sampler", "abort"):
+        n += 1
+        site = "%s @%s" % (b.path, b.loc())
+        reads = []
+        for bb, t in b.calls():
+            p_ = strip_generics(t["callee"].get("path", ""))
+            if p_.endswith(("Receiver::try_iter", "Receiver::try_recv", "Receiver::recv", "Receiver::recv_timeout", "Receiver::iter")) and t["args"]:
+                v = b.value(t["args"][0])
+                if any(n_[0] == "field" and n_[2] == rf for n_ in vt_walk_(v)):
+                    reads.append((bb, t))
+        if not reads:
+            R.bad("C13-R12", "Sampler::abort:reads-results", site, "abort() never reads self.%s: the error a chain reported there is dropped, and abort() returns Ok((None, trace)) "
+                  "although chains failed" % rf)
+            continue
+        # what was read reaches the returned value
+        flows = False
+        for bb, t in reads:
+            sl = b.slice([{"k": "copy", "pl": {"l": 0, "p": [], "ty": ""}}], control=False)
+            if t["dest"]["l"] in sl["locals"]:
+                flows = True
+        if flows:
+            R.ok("C13-R12", "Sampler::abort:reads-results", site, "abort() drains self.%s and what it finds flows into the returned value" % rf)
+        else:
+            R.bad("C13-R12", "Sampler::abort:reads-results", site, "abort() reads self.%s but the result does not depend on what it read" % rf)
+    if n == 0:
+        R.missing("C13-R12", "Sampler::abort")
+
+
 def r9(F, R):
     R.rule("C13-R9", "no division that panics on zero in library code: an integer `/` or `%` whose divisor is not a constant, or `Duration / n`, panics when the "
                      "divisor is 0 - and counts taken from a draw (steps, draws, chains) are 0 for a trajectory that fails on its first step, for an empty run, "
@@ -733,6 +779,7 @@ def run(F, R, config="all"):
     r9(F, R)
     r10(F, R)
     r11(F, R)
+    r12(F, R)
     # a panic in the chain worker is not an Err: the MCLMC retry bookkeeping must cover its step budget or `assert!(steps_taken >= num_base_steps)` fires
     from . import c18
     K.borrow_rule(R, lambda sub: c18.r4(F, sub), "C13-R7", "recoverable density errors inside an MCLMC trajectory are retried with a smaller step without ever tripping the "
